@@ -317,7 +317,7 @@ def cq(c):
     return "(%d)" % (v if v < 128 else v - 256)
 
 
-def step_cells(tier, lower=None):
+def step_cells(tier, lower=None, fwd_quick=False):
     """(cellname, defs) for MODE 1: first character x slot number, both concrete per cell."""
     cells = []
     q = tier == "quick"
@@ -338,7 +338,10 @@ def step_cells(tier, lower=None):
         uid = int(c, 16)
         if uid < 2:
             # acting data cells: destination slot of a completed packet x upstream codec are cell parameters too
-            combos = [(-1, 0), (1 - uid, 0), (-1, 3)] if q else [(to, e) for to in (-1, 0, 1) for e in (0, 1, 2, 3)]
+            # quick: delivery to the tun device (both slots, Base32; slot 1 also Base128); forwarding to the other session
+            # (the slowest cell, ~10 min) only where FWD_QUICK is set (C04); thorough: all destinations x codecs
+            combos = ([(-1, 0)] + ([(-1, 3)] if uid == 1 else []) + ([(1 - uid, 0)] if (uid == 1 and fwd_quick) else [])) if q \
+                else [(to, e) for to in (-1, 0, 1) for e in (0, 1, 2, 3)]
             for to, e in combos:
                 cells.append(("data%s-u%d-to%d-e%d" % (c, uid, to, e),
                               {"CMDCH": cq(c), "UIDCELL": "(%d)" % uid, "TOCELL": "(%d)" % to, "ENCSEL": e}))
@@ -350,10 +353,10 @@ def step_cells(tier, lower=None):
     return cells
 
 
-def step_jobs(tier, groups, prefix, checks=False, nl=None, only=None, timeout=1500):
+def step_jobs(tier, groups, prefix, checks=False, nl=None, only=None, timeout=1500, fwd_quick=False):
     jobs = []
     G = {"G_" + g: None for g in groups}
-    for cname, d in step_cells(tier):
+    for cname, d in step_cells(tier, fwd_quick=fwd_quick):
         if only and not re.search(only, cname):
             continue
         n = nl or (20 if tier == "quick" else 28)
@@ -535,7 +538,7 @@ def c03_jobs(tier):
 
 
 def c04_jobs(tier):
-    return step_jobs(tier, ["AUTH"], "iso", only=r"^(V|L|l|S|O|N|I|R|P|p|data[01])")
+    return step_jobs(tier, ["AUTH"], "iso", only=r"^(V|L|l|S|O|N|I|R|P|p|data[01])", fwd_quick=True)
 
 
 def c05_jobs(tier):
@@ -543,7 +546,8 @@ def c05_jobs(tier):
 
 
 def c14_jobs(tier):
-    return step_jobs(tier, ["ANS"], "ans", only=r"^(V|L|I|Z|S|O|Y|R|N|P|p|data)") + emit_jobs(tier, [], "ans")
+    return step_jobs(tier, ["ANS"], "ans", only=r"^(V|L|I|Z|S|O|Y|R|N|P|p|data)", fwd_quick=True) + \
+        (emit_jobs(tier, [], "ans") if tier != "quick" else [])
 
 
 def c15_jobs(tier):
